@@ -13,7 +13,7 @@ CONTROL = [
     {"text": "IF A=1 THEN 900", "last": True, "grp": 1},
     {"text": "IF A=1 THEN B=1", "last": True, "grp": 1},
     {"text": "IF A THEN B=1:C=2", "last": True, "grp": 1},
-    {"text": "IF A=1 AND B<2 OR NOT C=3 THEN B=1 ELSE B=2", "last": True, "grp": 1},
+    {"text": "IF NOT A=1 AND B<2 OR C=3 THEN B=1 ELSE B=2", "last": True, "grp": 1},
     {"text": "IF A$=\"X\" THEN 900 ELSE B=2", "last": True, "grp": 1},
     {"text": "IF (A=1) THEN B=1 ELSE 900", "last": True, "grp": 1},
     {"text": "IF A=1 THEN B=1 ELSE IF A=2 THEN B=2", "last": True, "grp": 2},
